@@ -201,6 +201,10 @@ func specRel(opts []layers.TCPOption, a int, o int, isn uint32) uint32 {
 //@ before ReadHandshake assert[C10.sack.others.mid3] forallint(h, old(selb(isOpen, h)) ==> selb(isOpen, h))
 //@ before TracerouteParallel assert[C10.sack.others.mid4] forallint(h, old(selb(isOpen, h)) ==> selb(isOpen, h))
 //@ before TracerouteParallel assert[C10.sack.open] selb(isOpen, ref(driver.source)) && selb(isOpen, ref(driver.sink))
+// C08: what can block for long in a SACK run — the dial and the engine — is handed the context that carries the one deadline
+// derived from the run's budget (MaxTimeout: handshake + FIN + the engine's budget), never the caller's bare context
+//@ before dialSackTCP assert[C08.sack.ctx.dial] bounded(callarg0)
+//@ before TracerouteParallel assert[C08.sack.ctx.engine] bounded(callarg0)
 // C12 (composition step): while the handshake is read the SYN-ACK filter is installed (the handshake matcher only takes
 // SYN-ACKs); for the trace the tuple filter is "from the target to the local port the driver matches on". That the
 // filter's local *address* equals driver.localAddr is proved at the point where the code compares them, before the
